@@ -50,8 +50,12 @@ macro_rules! seg_impl {
                 self.insert_by_range(SegRange { min: a as $r, max: b as $r }, $to(v))
             }
             fn query(&mut self, a: i64, b: i64, t: i32, take: i32) -> Vec<SegVal> {
-                let mut it = self.iter_by_range(SegRange { min: a as $r, max: b as $r }, $time(t)).map($from);
-                let mut out = Vec::new();
+                // every consumption mode is applied to the library's own iterator (no adapter in
+                // between), so that its specialisations of count / nth / last / fold / size_hint,
+                // if it has any, are what runs; values are converted afterwards
+                let mut it = self.iter_by_range(SegRange { min: a as $r, max: b as $r }, $time(t));
+                let mut out: Vec<$v> = Vec::new();
+                let mut marks: Vec<SegVal> = Vec::new();
                 if take == -4 {
                     // crash-point runs: a panic out of next() is caught per call and the SAME
                     // iterator is polled on - no value may be lost or repeated by that
@@ -69,7 +73,7 @@ macro_rules! seg_impl {
                         }
                     }
                 } else if take == -2 {
-                    // fold-based consumption (for_each, count, sum, last ... all go through fold)
+                    // fold-based consumption (for_each, sum ... go through fold)
                     out = it.fold(Vec::new(), |mut acc, v| {
                         acc.push(v);
                         acc
@@ -83,7 +87,7 @@ macro_rules! seg_impl {
                 } else if take == -5 {
                     // count(): the values are not seen, only how many there were
                     let c = it.count();
-                    out = vec![SegVal { id: MARK_COUNTED, exp: 0 }; c];
+                    marks = vec![SegVal { id: MARK_COUNTED, exp: 0 }; c];
                 } else if take == -6 {
                     // nth(0) until exhausted (what skip / step_by adapters call)
                     while let Some(v) = it.nth(0) {
@@ -112,7 +116,7 @@ macro_rules! seg_impl {
                         }
                     }
                     if !consistent {
-                        out.push(SegVal { id: MARK_BAD_HINT, exp: 0 });
+                        marks.push(SegVal { id: MARK_BAD_HINT, exp: 0 });
                     }
                 } else if take == -9 {
                     // last()
@@ -130,7 +134,9 @@ macro_rules! seg_impl {
                     }
                     drop(it);
                 }
-                out
+                let mut res: Vec<SegVal> = out.into_iter().map($from).collect();
+                res.extend(marks);
+                res
             }
             fn clear(&mut self) {
                 SegExpCollection::clear(self)
